@@ -456,13 +456,34 @@ func adChainAndEntriesSyncSegmented() *sched.Scenario {
 	return adChainAndEntriesSyncOf("N10-segmented-ad-chain-sync-and-entries-sync-of-one-publisher", dagsync.SegmentDepthLimit(1))
 }
 
+// N11: the same with the one-chunk entry point (SyncOneEntry) on a publisher
+// that has no handler (it was removed, as after idle expiry): still one sync
+// at a time, and the count is the ad-chain sync's own.
+func adChainAndOneEntrySyncHandlerless() *sched.Scenario {
+	oneEntryHandlerless = true
+	sc := adChainAndEntriesSyncOf("N11-ad-chain-sync-and-one-entry-sync-of-a-handlerless-publisher")
+	oneEntryHandlerless = false
+	return sc
+}
+
+// oneEntryHandlerless is read when a scenario is built (not when it runs).
+var oneEntryHandlerless bool
+
 func adChainAndEntriesSyncOf(name string, so ...dagsync.Option) *sched.Scenario {
+	oneEntry := oneEntryHandlerless
+	wantEntries := 2
+	if oneEntry {
+		wantEntries = 1
+	}
 	return &sched.Scenario{Name: name,
 		Setup: func(e *sched.Exec) ([]sched.Thread, func()) {
 			w := schedfx.New(e, schedfx.Options{Pubs: 1, ChainLen: 3, SubOpts: so})
 			p, ch := w.Pubs[0], w.Chains[0]
 			ech := syncfx.BuildEntryChain(p.Src, 2, syncfx.DefaultProto, "pub0-entries")
 			p.Publisher.SetRoot(ch.Cids[2])
+			if oneEntry {
+				w.Sub.RemoveHandler(p.Ident.ID)
+			}
 			ths := []sched.Thread{
 				{Name: "X", Fn: func() {
 					e.Log("X call sync")
@@ -471,9 +492,19 @@ func adChainAndEntriesSyncOf(name string, so ...dagsync.Option) *sched.Scenario 
 				}},
 				{Name: "E", Fn: func() {
 					e.Log("E call entries-sync")
-					err := w.Sub.SyncEntries(context.Background(), p.AddrInfo(), ech.Head())
+					var err error
+					if oneEntry {
+						err = w.Sub.SyncOneEntry(context.Background(), p.AddrInfo(), ech.Head())
+					} else {
+						err = w.Sub.SyncEntries(context.Background(), p.AddrInfo(), ech.Head())
+					}
 					e.Log("E ret entries-sync err=%v", err)
 				}},
+			}
+			if oneEntry {
+				// the entries sync first: it is the first contact with the
+				// publisher since its handler went
+				ths[0], ths[1] = ths[1], ths[0]
 			}
 			return ths, finish(e, w, nil)
 		},
@@ -500,8 +531,8 @@ func adChainAndEntriesSyncOf(name string, so ...dagsync.Option) *sched.Scenario 
 			if fmt.Sprint(f.setup) != "[pub0[2] count=2]" {
 				out = append(out, sched.Finding{Sig: name + ":notification-with-wrong-count-or-missing", Msg: fmt.Sprintf("the listener received %v, want [pub0[2] count=2] (block hook saw %d advertisements and %d entry chunks)", f.setup, ads, entries)})
 			}
-			if ads != 2 || entries != 2 {
-				out = append(out, sched.Finding{Sig: name + ":blocks-not-reported", Msg: fmt.Sprintf("block hook saw %d advertisements and %d entry chunks, want 2 and 2", ads, entries)})
+			if ads != 2 || entries != wantEntries {
+				out = append(out, sched.Finding{Sig: name + ":blocks-not-reported", Msg: fmt.Sprintf("block hook saw %d advertisements and %d entry chunks, want 2 and %d", ads, entries, wantEntries)})
 			}
 			return out
 		},
@@ -846,7 +877,7 @@ func longStall(t *testing.T, r *vp.Recorder, n int) {
 
 func TestCheck(t *testing.T) {
 	r := vp.New("C14", "model_checking",
-		"scenarios on the real subscriber built with the instrumentation overlay (gated in-memory publishers, chains of 3 signed ads): N1 two publishers synced by two threads with a reading and a never-reading listener; N2 two successive explicit syncs of one publisher while a listener registers and cancels at scheduler-chosen moments and a reader polls (checking the latest-synced value at the moment each event arrives); N3 an announce-triggered sync with a failing block request; N4 an explicit / an announce-triggered sync racing with Close while a listener registered beforehand reads only at the end; N5 explicit syncs of two publishers and a failing announce-triggered sync (three notifications in flight); N6 an announce-triggered and an explicit sync (own scoped hook) of one publisher overlapping, each notification's count compared with the hook calls of its own sync; N9 an ad-chain sync and an entries sync of one publisher by two threads (the notification's count is that of the ad-chain sync); N10 the same on a subscriber that syncs in segments of one advertisement; N8 an explicit sync whose caller cancels its context from inside the block hook (at the newest / at the oldest block); N7 one thread registering a listener, syncing, registering a second one, syncing again (registration precedes the sync by program order). Outside the scheduler: one listener that never reads and one that does, 150 (thorough 600) sequential syncs, each of which must return and reach the reader, and the backlog must arrive complete and in order in the end. All interleavings at the scheduling points (locks, atomics, channel operations of OnSyncFinished / cancel / the distributor, selects, spawns, requests, hook calls, observations) up to the preemption bound. states = distinct decision states; transitions = scheduling steps; traces = executions of the real code.",
+		"scenarios on the real subscriber built with the instrumentation overlay (gated in-memory publishers, chains of 3 signed ads): N1 two publishers synced by two threads with a reading and a never-reading listener; N2 two successive explicit syncs of one publisher while a listener registers and cancels at scheduler-chosen moments and a reader polls (checking the latest-synced value at the moment each event arrives); N3 an announce-triggered sync with a failing block request; N4 an explicit / an announce-triggered sync racing with Close while a listener registered beforehand reads only at the end; N5 explicit syncs of two publishers and a failing announce-triggered sync (three notifications in flight); N6 an announce-triggered and an explicit sync (own scoped hook) of one publisher overlapping, each notification's count compared with the hook calls of its own sync; N9 an ad-chain sync and an entries sync of one publisher by two threads (the notification's count is that of the ad-chain sync); N10 the same on a subscriber that syncs in segments of one advertisement; N11 a SyncOneEntry of a publisher whose handler was removed overlapping an ad-chain sync of that publisher; N8 an explicit sync whose caller cancels its context from inside the block hook (at the newest / at the oldest block); N7 one thread registering a listener, syncing, registering a second one, syncing again (registration precedes the sync by program order). Outside the scheduler: one listener that never reads and one that does, 150 (thorough 600) sequential syncs, each of which must return and reach the reader, and the backlog must arrive complete and in order in the end. All interleavings at the scheduling points (locks, atomics, channel operations of OnSyncFinished / cancel / the distributor, selects, spawns, requests, hook calls, observations) up to the preemption bound. states = distinct decision states; transitions = scheduling steps; traces = executions of the real code.",
 		"cooperative scheduling at synchronization operations; every multi-case select is a priority select whose first-tried case is a scheduler decision (a non-default first case costs one unit of the bound, like a preemption); at most 3 listeners and 2 publishers",
 		"in N1 and N2 the chain blocks are already in the destination store (they are reported but not requested), so each sync makes only the head request",
 		"'registered before the sync finished' is judged by real-time order in the observation log: registration returned before the sync was invoked, cancel invoked after it returned",
@@ -860,7 +891,7 @@ func TestCheck(t *testing.T) {
 	if vp.Thorough() {
 		bound = 3
 	}
-	scs := []*sched.Scenario{registerThenSync(), callerCancelsFromHook(1), callerCancelsFromHook(2), adChainAndEntriesSync(), adChainAndEntriesSyncSegmented(), syncVsClose("explicit"), syncVsClose("announce"), overlappingSyncsOfOnePublisher(), threeInFlight(), twoPublishers(), registerDuringSyncs(), failingAnnounce()}
+	scs := []*sched.Scenario{registerThenSync(), callerCancelsFromHook(1), callerCancelsFromHook(2), adChainAndEntriesSync(), adChainAndEntriesSyncSegmented(), adChainAndOneEntrySyncHandlerless(), syncVsClose("explicit"), syncVsClose("announce"), overlappingSyncsOfOnePublisher(), threeInFlight(), twoPublishers(), registerDuringSyncs(), failingAnnounce()}
 	r.Bounds(map[string]any{"preemption_bound": bound, "scenarios": len(scs)})
 	budget := 0.0
 	if v := os.Getenv("VERIF_BUDGET_S"); v != "" {
